@@ -185,6 +185,11 @@ func checkC02(c *Ctx) {
 	c.checkPins(f, "C02.h", irFactoryPins)
 	// (d)
 	if nf, fn := f.NF("parseLetFuncDef"); fn != nil {
+		// psNewTypeVar(ps) is the allocation psTypeVarGen(ps)() under a name (parseParam spells it that way): when the
+		// helper's own form is exactly that, both spellings are read as the allocation
+		if h, hfn := f.NF("psNewTypeVar"); hfn != nil && h == "psTypeVarGen(p0)()" {
+			nf = expandTinyOnce(nf, map[string]tinyDef{"psNewTypeVar": {1, h}})
+		}
 		const P = "parseParams(psNext(psPushScope(psConsume(var:New_TokenType_LET, p1))))"
 		want := "Ftype: newFFunc(slice.PushLast(#1(if(psCurIs(var:New_TokenType_COLON, #0(" + P + ")), parseType(psConsume(var:New_TokenType_COLON, #0(" + P + "))), (#0(" + P + "), New_FType_FTypeVar(psTypeVarGen(#0(" + P + "))())))), slice.Map(\\x0. x0.Ftype, #1(" + P + "))))"
 		r.Check(strings.Contains(nf, want), "C02.d", "parseLetFuncDef", "result-type", c.Pos(f.M.Fset, fn.Decl.Pos()),
